@@ -273,4 +273,14 @@ theorem reach_inv {g : Graph} {lim : Option Nat} (hg : GraphOK g) {s : St} (h : 
   | init => exact init_inv g hg lim
   | step _ hs ih => exact inv_step hg (step?_sound hs) ih
 
+theorem reach_runL {g : Graph} {lim : Option Nat} {s s' : St} (h : Reach g lim s) (ls : List Label)
+    (hr : runL g lim s ls = some s') : Reach g lim s' := by
+  induction ls generalizing s with
+  | nil => simp [runL] at hr; subst hr; exact h
+  | cons l r ih =>
+    simp only [runL] at hr
+    cases hs : step? g lim s l with
+    | none => simp [hs] at hr
+    | some s1 => simp [hs] at hr; exact ih (.step h hs) hr
+
 end CV.Trav
